@@ -480,7 +480,7 @@ def rule_inv_delim(ctx, rep):
         it.reset_run(oracle)
         return fresh(it)
     n_init = 0
-    for trace, obj in enumerate_paths(run_init, 64):
+    for trace, obj in enumerate_paths(run_init, 4000):
         n_init += 1
         if n_init == 1:
             check(obj, 'core_tokens.Delimiter.__init__', 'construction')
@@ -494,7 +494,7 @@ def rule_inv_delim(ctx, rep):
             r = it.call(rm, [obj, Aff.sym('n')], {'left': left})
             return obj, r, it
         seen = set()
-        for trace, (obj, r, it) in enumerate_paths(run_rm, 256):
+        for trace, (obj, r, it) in enumerate_paths(run_rm, 20000):
             relevant = tuple((k, v) for k, v in trace if isinstance(k, tuple) and k and k[0] == 'aff')
             if relevant in seen:
                 continue
